@@ -43,6 +43,7 @@ def install(eng):
     B[_bi.round] = b_round
     B[_bi.repr] = lambda e, st, a, k, n: SV(KStr, st.fresh("repr", z3.StringSort()))
     B[_bi.range] = b_range
+    B[_bi.type] = lambda e, st, a, k, n: e.new_object(st, 'type')
     B[_bi.enumerate] = b_enumerate
     B[_bi.reversed] = b_reversed
     B[_math.isnan] = b_math_isnan
@@ -62,6 +63,8 @@ def install(eng):
     B[threading.get_ident] = lambda e, st, a, k, n: SV(KInt, z3.Int("thread_ident"))
     B[threading.RLock] = lambda e, st, a, k, n: e.new_object(st, "Lock")
     B[threading.Lock] = lambda e, st, a, k, n: e.new_object(st, "Lock")
+    import sys as _sys
+    B[_sys.exc_info] = lambda e, st, a, k, n: SV(KVal, st.fresh('exc_info', val_sort()))
     import gc
     B[gc.collect] = lambda e, st, a, k, n: NONE
 
@@ -80,7 +83,8 @@ def install(eng):
     M[("str", "format")] = lambda e, st, r, a, k, n: SV(KStr, st.fresh("fmt", z3.StringSort()))
     M[("val", "get")] = m_val_get
     M[("val", "items")] = m_val_items
-    M[("ref", "isoformat")] = None
+    M[("ref", "total_seconds")] = lambda e, st, r, a, k, n: SV(KFloat, f_fin(st.fresh("seconds", z3.RealSort())))
+    M[("ref", "isoformat")] = lambda e, st, r, a, k, n: SV(KStr, uf("isoformat", z3.IntSort(), z3.StringSort())(r.term))
 
 
 # --------------------------------------------------------------------------------------------------
